@@ -2,6 +2,7 @@
 verus! {
 
 /// the image handed to the splitter: sorted by target, holding every transition of the table
+#[verifier::opaque]
 spec fn image_ok(d: DFA, im: Seq<Transition>) -> bool {
     sorted_by_to(im)
     && (forall|q: u32, a: InpId| #[trigger] used(d, q, a) ==> exists|m: int| 0 <= m < im.len() && #[trigger] tr_is(im[m], q, a, d.transitions@[q][a]))
@@ -18,12 +19,14 @@ spec fn nxt(d: DFA, q: u32, a: InpId) -> u32 {
 spec fn all_st(d: DFA, s: u32) -> bool { s == DEAD_STATE_ID || is_end(d, s) }
 
 /// the dead state's number is not used for a real state
+#[verifier::opaque]
 spec fn no_zero(d: DFA) -> bool {
     (forall|q: u32, a: InpId| #[trigger] used(d, q, a) ==> q != DEAD_STATE_ID && d.transitions@[q][a] != DEAD_STATE_ID)
     && d.starting_state != DEAD_STATE_ID && !d.accepting_states@.contains(DEAD_STATE_ID)
 }
 
 /// the start state and the accepting states occur in the table
+#[verifier::opaque]
 spec fn states_occur(d: DFA) -> bool {
     is_end(d, d.starting_state) && (forall|s: u32| d.accepting_states@.contains(s) ==> is_end(d, s))
 }
@@ -104,6 +107,7 @@ spec fn wl_after(wl0: ISet<SetId>, c: SetId, c1: SetId, c2: SetId, wl1: ISet<Set
 }
 
 /// block c is cut by f into c1 (inside f) and c2 (outside), both non-empty
+#[verifier::opaque]
 spec fn is_split(p0: Seq<ISet<u32>>, p1: Seq<ISet<u32>>, c: SetId, c1: SetId, c2: SetId, f: ISet<u32>) -> bool {
     c1.0 < p1.len() && c2.0 < p1.len()
     && (forall|x: u32| #[trigger] blk(p1, c1).contains(x) <==> blk(p0, c).contains(x) && f.contains(x))
@@ -116,6 +120,7 @@ proof fn lemma_hop_init(d: DFA, p: Seq<ISet<u32>>, pt: ISet<SetId>)
     requires part_ok(d, p, pt), acc_ok(d, p, pt), no_zero(d)
     ensures hop_ok(d, p, pt, pt, None)
 {
+    reveal(no_zero);
     reveal(part_ok);
     reveal(acc_ok);
     reveal(hop_ok);
@@ -162,6 +167,7 @@ proof fn lemma_split(d: DFA, p0: Seq<ISet<u32>>, p1: Seq<ISet<u32>>, pt0: ISet<S
         forall|k: SetId| pt0.contains(k) && k != c ==> #[trigger] pt1.contains(k) && blk(p1, k) == blk(p0, k) && k != c1 && k != c2,
         forall|k: SetId| #[trigger] pt1.contains(k) ==> k == c1 || k == c2 || (pt0.contains(k) && k != c),
 {
+    reveal(is_split);
     reveal(part_ok);
     reveal(acc_ok);
     reveal(hop_ok);
@@ -304,6 +310,8 @@ proof fn lemma_initial(d: DFA, p: Seq<ISet<u32>>, pt: ISet<SetId>, allv: ISet<u3
         setpool_wf(p),
     ensures part_ok(d, p, pt), acc_ok(d, p, pt)
 {
+    reveal(no_zero);
+    reveal(states_occur);
     reveal(part_ok);
     reveal(acc_ok);
     let acc = d.accepting_states@;
@@ -418,6 +426,7 @@ proof fn lemma_no_trans(d: DFA, im: Seq<Transition>, gmin: u32, gmax: u32, gs: I
         !gs.contains(DEAD_STATE_ID),
     ensures forall|x: u32| !preset(d, gs, a).contains(x)
 {
+    reveal(image_ok);
     assert forall|x: u32| !preset(d, gs, a).contains(x) by {
         if gs.contains(nxt(d, x, a)) {
             assert(used(d, x, a));
@@ -442,6 +451,7 @@ proof fn lemma_split_rest(p0: Seq<ISet<u32>>, p1: Seq<ISet<u32>>, pt0: ISet<SetI
         forall|m: int| i3 + 1 <= m < ov.len() ==> pt1.contains(#[trigger] ov[m]) && !blk(p1, ov[m]).disjoint(f),
         forall|k: SetId| #[trigger] pt1.contains(k) ==> pure_blk(blk(p1, k), f) || exists|m: int| i3 + 1 <= m < ov.len() && #[trigger] ov[m] == k,
 {
+    reveal(is_split);
     assert forall|m: int| i3 + 1 <= m < ov.len() implies pt1.contains(#[trigger] ov[m]) && !blk(p1, ov[m]).disjoint(f) by {
         assert(ov[i3] != ov[m]);
         assert(pt0.contains(ov[m]));
@@ -499,6 +509,7 @@ proof fn lemma_pre_is_nxt(d: DFA, im: Seq<Transition>, sl: Seq<Transition>, lo: 
         !gs.contains(DEAD_STATE_ID),
     ensures pre_img(sl, sl.len() as int, gs, a, x) == gs.contains(nxt(d, x, a))
 {
+    reveal(image_ok);
     if pre_img(sl, sl.len() as int, gs, a, x) {
         let m = choose|m: int| 0 <= m < sl.len() && m < sl.len() && gs.contains((#[trigger] sl[m]).to) && sl[m].input == a && sl[m].from == x;
         assert(sl[m] == im[lo + m]);
@@ -509,6 +520,51 @@ proof fn lemma_pre_is_nxt(d: DFA, im: Seq<Transition>, sl: Seq<Transition>, lo: 
         assert(in_group(im[m], gmin, gmax));
         assert(sl[m - lo] == im[m]);
         assert(gs.contains(sl[m - lo].to));
+    }
+}
+
+} // verus!
+verus! {
+
+/// the map collected so far holds, per symbol, the sources of the first n transitions into gs
+spec fn pre_ok(gt: Map<InpId, RoaringBitmap>, im: Seq<Transition>, n: int, gs: ISet<u32>) -> bool {
+    forall|a: InpId, x: u32| #![trigger gt[a]@.contains(x)] #![trigger pre_img(im, n, gs, a, x)]
+        (gt.contains_key(a) && gt[a]@.contains(x)) <==> pre_img(im, n, gs, a, x)
+}
+
+proof fn lemma_pre_start(gt: Map<InpId, RoaringBitmap>, im: Seq<Transition>, gs: ISet<u32>)
+    requires gt == Map::<InpId, RoaringBitmap>::empty()
+    ensures pre_ok(gt, im, 0, gs)
+{
+}
+
+proof fn lemma_pre_skip(gt: Map<InpId, RoaringBitmap>, im: Seq<Transition>, n: int, gs: ISet<u32>)
+    requires pre_ok(gt, im, n, gs), 0 <= n < im.len(), !gs.contains(im[n].to)
+    ensures pre_ok(gt, im, n + 1, gs)
+{
+    assert forall|a: InpId, x: u32| #![trigger gt[a]@.contains(x)] #![trigger pre_img(im, n + 1, gs, a, x)]
+        (gt.contains_key(a) && gt[a]@.contains(x)) <==> pre_img(im, n + 1, gs, a, x) by {
+        lemma_pre_img_step(im, n, gs, a, x);
+        assert((gt.contains_key(a) && gt[a]@.contains(x)) <==> pre_img(im, n, gs, a, x));
+    }
+}
+
+proof fn lemma_pre_add(gt0: Map<InpId, RoaringBitmap>, gt1: Map<InpId, RoaringBitmap>, im: Seq<Transition>, n: int, gs: ISet<u32>)
+    requires
+        pre_ok(gt0, im, n, gs), 0 <= n < im.len(), gs.contains(im[n].to),
+        gt1.dom() == gt0.dom().insert(im[n].input),
+        gt0.contains_key(im[n].input) ==> gt1[im[n].input]@ == gt0[im[n].input]@.insert(im[n].from),
+        !gt0.contains_key(im[n].input) ==> gt1[im[n].input]@ == ISet::<u32>::empty().insert(im[n].from),
+        forall|j: InpId| j != im[n].input && gt0.contains_key(j) ==> #[trigger] gt1[j] == gt0[j],
+    ensures pre_ok(gt1, im, n + 1, gs)
+{
+    let k = im[n].input;
+    assert forall|a: InpId, x: u32| #![trigger gt1[a]@.contains(x)] #![trigger pre_img(im, n + 1, gs, a, x)]
+        (gt1.contains_key(a) && gt1[a]@.contains(x)) <==> pre_img(im, n + 1, gs, a, x) by {
+        lemma_pre_img_step(im, n, gs, a, x);
+        assert((gt0.contains_key(a) && gt0[a]@.contains(x)) <==> pre_img(im, n, gs, a, x));
+        assert(gt1.contains_key(a) == (gt0.contains_key(a) || a == k));
+        if a != k && gt0.contains_key(a) { assert(gt1[a] == gt0[a]); }
     }
 }
 
